@@ -105,7 +105,7 @@ def cases(ctx):
                       ("estream", 0), ("deque", 0), ("iter", 1),
                       ("partial", 0)])
     zero = rng.choice(["Z", "Z", 0, 0.0, Fraction(0), Fraction(2, 3), 5])
-    samples = rng.choice(["sym", "sym", "sym", "int", "frac"])
+    samples = rng.choice(["sym", "sym", "sym", "int", "frac", "bigint"])
     yield ("filt", form, b, a, n, mem, zero, samples)
 
 
@@ -308,6 +308,16 @@ def run_case(ctx, case):
     x = syms("x", n)
   elif samples == "int":
     x = [(-1) ** i * (i + 2) for i in range(n)]
+  elif samples == "bigint" and all(
+      isinstance(v, int) and not isinstance(v, bool)
+      for v in list(raw_num.values()) + list(raw_den.values())) and \
+      raw_den.get(0) in (1, -1) and not isinstance(zspec, float):
+    # beyond 2**53: any detour through a float shows ("every sample value");
+    # only where Python's own arithmetic is exact (integer coefficients, no
+    # true division), elsewhere huge samples are merely ill-conditioned
+    x = [(-1) ** i * (2 ** 60 + 7 * i + 1) for i in range(n)]
+  elif samples == "bigint":
+    x = [(-1) ** i * (i + 2) for i in range(n)]
   else:
     x = [Fraction((-1) ** i * (2 * i + 1), i + 2) for i in range(n)]
   lm = max(cden)
@@ -405,6 +415,8 @@ def run_case(ctx, case):
                  for v in coeffs) and g in (1, -1)
              and not isinstance(zspec, float))
   ctx.count("class:" + ("E" if exact else "T"))
+  if samples == "bigint" and exact and n:
+    ctx.count("big-integer-samples-compared-exactly")
   for i, (gv, wv) in enumerate(zip(got, want)):
     try:
       gl = Lin.lift(gv)
@@ -446,6 +458,7 @@ def finish(ctx):
             "estream", "deque", "iter", "partial"]:
     ctx.need("memory:" + m, 50)
   ctx.need("zero:Lin", 200)
+  ctx.need("big-integer-samples-compared-exactly", 20)
   ctx.need("outputs-compared", 5000)
   ctx.need("complex-unit-modulus-coefficient", 100)
   ctx.need("concurrent-filter-calls", 200)
